@@ -31,6 +31,7 @@ import (
 	"github.com/zmap/zcrypto/x509"
 	"verifmc/cmd/c02/certs"
 	"verifmc/internal/ev"
+	"verifmc/internal/nohb"
 	"verifmc/internal/xgen"
 )
 
@@ -52,6 +53,10 @@ func mkUnits(quick bool) []certs.Unit {
 }
 
 func main() {
+	if nohb.IsWorker() {
+		nohb.WorkerMain(reentrantOps(), certs.RepoDir())
+		return
+	}
 	if certs.IsWorker(id) {
 		certs.WorkerMain(id, &handler{}, mkUnits)
 		return
@@ -306,6 +311,7 @@ func run(c *ev.Ctx) {
 	for _, s := range t.Samples {
 		c.Sample(s)
 	}
+	reentrantPhase(c)
 	c.Set("units", len(units))
 	c.Set("units_done", len(mr.Done))
 	c.Set("candidates", t.Items)
